@@ -32,6 +32,15 @@ def enc_argsp(a):
         return 'LE/%s/%d' % (wire(a[1]), 1 if a[2] else 0)
     return 'U'
 
+def has_unmodelled(ctx):
+    """argument kinds the Lean context type cannot express (oracle-only cases): 'm0' = expression without leading whitespace"""
+    if ctx == 'default':
+        return False
+    def bad(a):
+        return a is not None and a[0] == 'S' and any(sp[0] == 'm0' for sp in a[1])
+    return any(bad(a) for _, a in ctx['macros']) or any(bad(a) for _, a, _ in ctx['envs']) or \
+        any(bad(a) for _, a in ctx['specials']) or bad(ctx.get('um')) or (ctx.get('ue') is not None and bad(ctx['ue'][0]))
+
 def enc_ctx(ctx):
     if ctx == 'default':
         return '@default'
@@ -54,7 +63,9 @@ def make_argspec_list(specs):
             d = ParsingStateDeltaEnterMathMode()
         elif delta == '-':
             d = ParsingStateDeltaLeaveMathMode()
-        if kind == 'o1':
+        if kind == 'm0':
+            p = LatexStandardArgumentParser('{', allow_pre_space=False)
+        elif kind == 'o1':
             p = '['
         elif kind == 'o0':
             p = LatexStandardArgumentParser('[', allow_pre_space=False)
@@ -131,7 +142,7 @@ def introspect_argspec(arg):
     if not isinstance(parser, str):
         return None
     if parser in ('m', '{'):
-        return ['m', d] if allow_pre else None
+        return ['m', d] if allow_pre else ['m0', d]
     if parser in ('o', '['):
         return ['o1' if allow_pre else 'o0', d]
     if not allow_pre:
